@@ -34,7 +34,7 @@ Section AnyOperators.
   (* the transformer classes: fpat = sticky_pat extended by PPad, PPadToMultiple, PCollapse, PNoRepeats, PChanged, PDiff,
      PRound (scalar arguments), PWrap, PCounter, PStutter (pattern or scalar count), PLoop, PSubsequence (scalar offset /
      length), PIndexOf, PDictKey, PArrayIndex (operands scalars or patterns; PIndexOf / PDictKey also over a literal list /
-     dict), each over ANY pattern of the fragment, nested to any depth: once next() has raised StopIteration - whether
+     dict), PConcatenate, each over ANY pattern of the fragment, nested to any depth: once next() has raised StopIteration - whether
      because the input ended, a padding was used up, the repeats of a loop ran out or a pattern-valued count ended - no
      later next() returns a value, at ANY fuel f2 of the model (so the statement does not depend on the fuel at which
      the StopIteration was observed) *)
@@ -52,16 +52,16 @@ Section AnyOperators.
   Proof. exact sticky_fpat. Qed.
 
   (* PConcatenate([x1 .. xn]) over patterns of the fragment, in ANY state: once it has raised StopIteration (it is then on
-     its last input, which has stopped) no later next() returns a value.  (PConcatenate as the ROOT of the expression;
-     PConcatenate nested under another class is still open.) *)
+     its last input, which has stopped) no later next() returns a value.  (Instance of C09_sticky_transformers: fpat has
+     the constructor FP_concat, so PConcatenate may also occur below / above any other class of the fragment.) *)
   Theorem C09_sticky_concatenate : forall f l pos p',
     (forall o x y, binop o x y <> Stop) ->
     Forall farg l -> step binop LMAX f (PConcatenate (AL l) pos) = (Stop, p') -> forall f2, quiet binop LMAX f2 p'.
   Proof. intros f l pos p' Hns. exact (concat_quiet binop LMAX Hns f l pos p'). Qed.
 
   (* for EVERY class of the model: a state that answers StopIteration without changing answers it for ever.
-     Full statement, open for the remaining finite classes (PConcatenate below another class, PDict, PArrayIndex over a
-     literal list, PSequence with pattern items, PRound with pattern arguments), validated by the correspondence and the stickiness oracle only:
+     Full statement, open for the remaining finite classes (PDict, PArrayIndex over a literal list, PSequence with pattern
+     items, PRound with pattern arguments), validated by the correspondence and the stickiness oracle only:
        forall f p p', finite_fragment p -> no_pattern_valued_terminating_parameter p ->
                       step f p = (Stop, p') -> quiet f p'                                        *)
   Theorem C09_sticky_remaining_classes_partial : forall f p,
